@@ -31,6 +31,7 @@ func emitRest(dir string, t *Tables) {
 	emitReader(dir, thePkg)
 	emitWriteLine(dir, thePkg)
 	emitValidate(dir, thePkg)
+	emitState(dir, theRepo)
 	emitEffects(dir, thePkg)
 	emitSchema(dir, thePkg, theRepo)
 	emitRules(dir, t)
